@@ -46,6 +46,10 @@ CHECKS = {
   technique='property-based testing (Hypothesis) with validity predicates (non-negative, columns sum to one, fill ratios, per-profile range and length) and an independent recomputation of the mean molecular weight and of the active/inactive split; totals steered into valid / boundary / invalid classes by construction',
   text='Generated fill lists (1-4 gases), trace gases of all five profile types, layer counts that are not multiples of ten, and availability of opacity data in cross-section or k-table mode; valid totals must give a proper mixture, totals above one must be rejected with InvalidChemistryException; exploration level.',
   note='Atomic weights taken from the code (data), formula parsing and sums independent; boundary totals (within 1e-9 of one) accept either outcome.'),
+ 'C11': dict(
+  technique='property-based testing (Hypothesis) against a pure-python bottom-up hydrostatic integration and shape/ordering predicates over every exposed and stored per-layer quantity',
+  text='Generated planets, 1-200 layers, log-spaced or arbitrary decreasing levels, arbitrary temperature and molecular-weight arrays (function level) and whole models on simple or array pressure profiles (model level); altitude, thickness, gravity, scale height and density compared with the reference; every per-layer array and every entry of generate_profiles() must have exactly one entry per layer; exploration level.',
+  note='Physical constants typed in; condition-aware tolerance for nearly equal levels; array profiles judged when the derived levels decrease strictly.'),
 }
 
 NOT_APPLICABLE = {}
